@@ -100,6 +100,58 @@ def profile_agreement(ctx, clause="both-profiles"):
                    "after %s the debug assertions require %s in [%r, %r]: every other input taking this path panics in a debug build" % bad[0], at=b.span, kind="N")
 
 
+def debug_assertions_cover_inputs(ctx, clause="both-profiles"):
+    """N: a comparison that only the dev profile establishes (a `debug_assert!`) on a range-reduced
+    input must hold for the whole range that input can take: otherwise ordinary calls (a negative
+    longitude, say) panic in debug builds while release builds answer.  The range of the asserted
+    expression is computed from the ranges of the parameters (lon: any finite value, lat in
+    [-pi/2, pi/2], radius in (0, pi]) through + - * / %, abs, min, max."""
+    import math
+    from rules.common import frange
+    for fn in ("largest_center_to_vertex_distance", "largest_center_to_vertex_distance_with_radius", "largest_center_to_vertex_distances_with_radius"):
+        facts = {}
+        b = None
+        for cfg in ("rel", "dbg"):
+            crate = ctx.crate(cfg)
+            b = ctx.anchor(crate, fn, clause)
+            if b is None: break
+            acc = []
+            e = Engine(crate, opaque={"get_or_create"})
+            def eh(body, s_, t_, st, fk, acc=acc):
+                if t_ != "return": return               # what holds when a function (or a helper analysed in place) hands back a value
+                acc.append(frozenset(f for f in st.facts if f[0] == 'b' and f[1][0] == 'op' and f[1][1] in ('lt', 'le', 'gt', 'ge')))
+            e.edge_hook = eh
+            e.run(fn); ctx.functions |= e.visited_fns
+            facts[cfg] = acc
+        if b is None: continue
+        env = {('p', 'lon'): (-1e9, 1e9), ('p', 'cone_lon'): (-1e9, 1e9), ('p', 'lat'): (-math.pi / 2, math.pi / 2), ('p', 'cone_lat'): (-math.pi / 2, math.pi / 2),
+               ('p', 'radius'): (0.0, math.pi), ('p', 'cone_radius'): (0.0, math.pi)}
+        from rules.common import frange_facts
+        rel_all = set().union(*facts["rel"]) if facts["rel"] else set()
+        bad = []; n = 0; seen = set()
+        for path_facts in facts["dbg"]:
+            path_rel = {f for f in path_facts if f in rel_all}          # what the release build knows on that path too
+            for f in path_facts - rel_all:                               # established by a debug assertion only
+                if f in seen: continue
+                t, truth = f[1], f[2]
+                ps = {x[1] for x in walk(t) if x[0] == 'p'}
+                # longitudes only: they are the unbounded input that the helpers reduce themselves; assertions
+                # relating abs(lat) and the radius follow from the branch taken (a relation between two
+                # inputs, not a range), and their consistency is what the degenerate-domain rule above checks
+                if not ps or not all("lon" in p_ for p_ in ps): continue
+                a, c = frange_facts(t[3], env, path_rel), frange_facts(t[4], env, path_rel)
+                if a is None or c is None: continue
+                seen.add(f); n += 1
+                op = t[1] if truth else {'lt': 'ge', 'le': 'gt', 'gt': 'le', 'ge': 'lt'}[t[1]]
+                tol = 1e-9
+                holds = (op in ('lt', 'le') and a[1] <= c[0] + tol) or (op in ('gt', 'ge') and a[0] >= c[1] - tol)
+                if not holds: bad.append((show(t)[:90] + (" is %s" % truth), a, c))
+        ctx.report(clause, fn + ":debug-assertions-cover-the-inputs", not bad,
+                   "%d comparisons established only in the dev profile: each holds on the whole range of its operands" % n if not bad else
+                   "the dev profile requires %s, but the left side ranges over [%.4g, %.4g] and the right side over [%.4g, %.4g] for admissible arguments (e.g. a negative longitude: `lon %% HALF_PI` keeps the sign): such calls panic in debug builds" % (bad[0][0], bad[0][1][0], bad[0][1][1], bad[0][2][0], bad[0][2][1]),
+                   at=b.span, kind="N", sample={"debug_only_comparisons": n})
+
+
 def run(ctx):
     crate = ctx.crate("rel")
     s = crate.statics.get(TABLE)
@@ -167,4 +219,5 @@ def run(ctx):
     depth0_bound(ctx, crate)
     npc_siblings(ctx, crate)
     profile_agreement(ctx)
+    debug_assertions_cover_inputs(ctx)
     ctx.not_decided("that the tabulated limits and the linear/parabolic envelopes of ConstantsC2V are upper bounds of real cell sizes (spherical trigonometry); largest_center_to_vertex_distance*")
